@@ -3,6 +3,7 @@ package main
 import (
 	"bytes"
 	"fmt"
+	"time"
 
 	"github.com/hedzr/logg/slog"
 )
@@ -20,15 +21,7 @@ func main() {
 		default:
 			l.SetColorMode(true)
 		}
-		mem := func() []slog.Attr {
-			return []slog.Attr{slog.Int("b", 2), slog.Int("a", 1), slog.NewGroupedAttr("h", slog.String("x", "y"))}
-		}
-		l.Info("m", slog.NewGroupedAttr("g", mem()...))
-		l.Info("m", slog.NewAttr("g", slog.Attrs(mem())))
-		l.Info("m", slog.NewAttr("g", mem()))
-		l.Info("m", slog.Group("g", mem()[0], mem()[1], mem()[2]))
-		l.Info("m", slog.NewGroupedAttrEasy("g", "b", 2, "a", 1, slog.NewGroupedAttr("h", slog.String("x", "y"))))
-		l.Info("m", slog.NewAttr("g", slog.Attrs{}), slog.NewAttr("e", slog.Attrs{slog.NewAttr("in", slog.Attrs{})}))
+		l.Info("m", "t", time.Date(12345, 6, 7, 8, 9, 10, 11, time.UTC), "neg", time.Date(-50, 6, 7, 8, 9, 10, 11, time.UTC), "lv", slog.Level(4242), "lv2", slog.WarnLevel)
 		fmt.Printf("%s\n%s", f, b.String())
 	}
 }
